@@ -163,12 +163,9 @@ def run(chk):
     from . import c14
     chk.rule("R14.4", "fixed weight vectors: trim_end_zeros drops only trailing zeros (shared with C14)")
     c14.trim_table(chk, facts.world(cfgname(F)))
-    # scoring code shared by all configurations: placement of weight vectors, suffix merge, scorer absence (shared with C01)
-    from . import c01_addscore, c01_merge, c01_absent
-    wf = facts.world(cfgname(F))
-    c01_addscore.run(chk, wf)
-    c01_merge.run(chk, wf)
-    c01_absent.run(chk, wf)
+    # scoring code shared by all configurations: placement of weight vectors in the Fixed / Variable arms (shared with C01)
+    from . import c01_addscore
+    c01_addscore.run(chk, facts.world(cfgname(F)))
 
 
 def twins(chk):
